@@ -92,7 +92,7 @@ PROPS["C12"] = dict(
            T("TestClassifyDeepEqual", (2, 10000), (4, 200000)),
            T("TestClassifyHistory", (2, 8000), (4, 150000))],
     fuzz=[dict(name="FuzzClassify", time="120s")],
-    rule="registration lists of HandleErrors/HandleErrorTypes/HandleResult/HandleIf (and AbortOn*/CancelOn*) x outcomes (values 0..3 x 20 errors: nil, sentinels, wrapped once/twice, joined, value- and pointer-receiver types bare/wrapped/joined, marker interface, custom Is, nil Unwrap, unrelated), each evaluated through a fallback, a retry policy, a breaker (execution and RecordResult/RecordError), retry abort conditions and hedge cancel conditions; lists of length 0..2 over a 22-condition alphabet are enumerated exhaustively against all 80 outcomes, longer lists (up to 5) are drawn at random; non-trivial = at least 2 registration kinds of which one matches and one does not, or an error nested at least two levels with some registration; distinct = the case itself. TestClassifyDeepEqual: policies over R = any with HandleResult / AbortOnResult values of 14 shapes (int, int64, string, pointers to structs, slices, a map, structs holding pointers, a typed nil pointer, nil, a struct value, an array), the outcome built separately from the registered value (equal contents, distinct instances) or the same instance, through fallback, retry, abort and breaker carriers against reflect.DeepEqual; non-trivial = a match between distinct instances of a pointer / slice / map / struct value. TestClassifyHistory: one policy instance per carrier classifies a sequence of 2..8 outcomes; each verdict is the rule applied to that outcome alone; non-trivial = the sequence contains failures and non-failures",
+    rule="registration lists of HandleErrors/HandleErrorTypes/HandleResult/HandleIf (and AbortOn*/CancelOn*) x outcomes (values 0..3 x 20 errors: nil, sentinels, wrapped once/twice, joined, value- and pointer-receiver types bare/wrapped/joined, marker interface, custom Is, nil Unwrap, unrelated), each evaluated through a fallback, a retry policy, a breaker (execution and RecordResult/RecordError), retry abort conditions and hedge cancel conditions; lists of length 0..2 over a 22-condition alphabet are enumerated exhaustively against all 80 outcomes, longer lists (up to 5) are drawn at random; non-trivial = at least 2 registration kinds of which one matches and one does not, or an error nested at least two levels with some registration; distinct = the case itself. (slices handed to variadic registration calls are overwritten by the caller right after the call: what was registered is what they held) TestClassifyDeepEqual: policies over R = any with HandleResult / AbortOnResult values of 14 shapes (int, int64, string, pointers to structs, slices, a map, structs holding pointers, a typed nil pointer, nil, a struct value, an array), the outcome built separately from the registered value (equal contents, distinct instances) or the same instance, through fallback, retry, abort and breaker carriers against reflect.DeepEqual; non-trivial = a match between distinct instances of a pointer / slice / map / struct value. TestClassifyHistory: one policy instance per carrier classifies a sequence of 2..8 outcomes; each verdict is the rule applied to that outcome alone; non-trivial = the sequence contains failures and non-failures",
     assumptions=["result conditions of abort/cancel lists on outcomes that carry an error are not checked (documentation silent, DESIGN.md L5; counted)",
                  "results are comparable ints except in TestClassifyDeepEqual; predicates come from a named finite family evaluated identically by the oracle"],
 )
@@ -193,7 +193,7 @@ PROPS["C18"] = dict(
     pkg="./props/c18_adapters",
     tests=[REGRESS(), T("TestHTTP", (8, 300), (16, 5000)), T("TestGRPC", (4, 4000), (8, 60000)), T("TestGRPCLoopback", (4, 250), (8, 5000)), T("TestHTTPErrorClasses", (2, 150), (4, 1000)), T("TestKnownFindingD9", (1, 0), (1, 0))],
     replay_reps=20,
-    rule="(HTTP errors, TestHTTPErrorClasses) transport errors by class {unsupported scheme, redirect loop, certificate signed by an unknown authority, connection refused, connection reset} x {RoundTripper, Request} x max retries 0..3: exactly one attempt for the classes the adapter's retry policy names as terminal, exactly 1 + max retries for the others. (HTTP) rapid-generated requests against a loopback httptest server with a scripted answer per attempt: method, path+query, 0..4 headers (each attempt must carry exactly the original values of each, no more), for bodies whose length net/http knows (or that are absent or empty) the framing of every attempt -- declared content length, chunked or not -- equals that of the same request sent by a plain http.Client (a reference request per shape), through failsafehttp.Request optionally a client with a cookie jar holding one cookie (every attempt carries it once, as a plain client.Do would), body kind as an http.Request can carry it (nil, NoBody, what NewRequest makes of a Buffer / bytes.Reader / strings.Reader, a seekable ReadSeekCloser, a streaming ReadCloser with short reads, empty) x size {0, 1, 4 KiB, 64 KiB+1, thorough: 1 MiB} (and 6 MiB bodies under real hedging with the server holding back the first upload until the hedge has arrived, so that uploads overlap), request context kind x executor context kind, policy stack from {failsafehttp retry, never-firing timeout, 1 h hedge, real hedging against a slow server, breaker, fallback}, NewRoundTripper or NewRequest, server script per attempt (status, Retry-After, response size, flushed early / chunked with pauses / answered before the body was read / connection closed before or after the headers), or the caller cancelling while the server holds the response; a recording inner RoundTripper observes the context of every attempt. (gRPC) the client and server interceptors are invoked directly with a recording invoker / handler: status codes per attempt (server side: optionally the handler returns its reply object together with the error, and both pass through), call context with values, deadline, outgoing / incoming metadata, executor context, caller cancellation; plus TestGRPCLoopback: a real grpc.ClientConn and grpc.Server over an in-memory connection (bufconn) with the client and server interceptors installed, checking what arrives on the wire (metadata, deadline, request), attempt counts, replies and caller cancellation. Non-trivial = at least 2 attempts with a non-empty body, or a context-creating policy together with a non-background call context, or values / deadline / metadata present; distinct = the scenario",
+    rule="(HTTP errors, TestHTTPErrorClasses) transport errors by class {unsupported scheme, redirect loop, certificate signed by an unknown authority, connection refused, connection reset} x {RoundTripper, Request} x max retries 0..3: (plus, through failsafehttp.Request, the caller's http.Client giving up on each attempt after its own Timeout while the caller's context stays alive: retried) exactly one attempt for the classes the adapter's retry policy names as terminal, exactly 1 + max retries for the others. (HTTP) rapid-generated requests against a loopback httptest server with a scripted answer per attempt: method, path+query, 0..4 headers (each attempt must carry exactly the original values of each, no more), for bodies whose length net/http knows (or that are absent or empty) the framing of every attempt -- declared content length, chunked or not -- equals that of the same request sent by a plain http.Client (a reference request per shape), through failsafehttp.Request optionally a client with a cookie jar holding one cookie (every attempt carries it once, as a plain client.Do would), body kind as an http.Request can carry it (nil, NoBody, what NewRequest makes of a Buffer / bytes.Reader / strings.Reader, a seekable ReadSeekCloser, a streaming ReadCloser with short reads, empty) x size {0, 1, 4 KiB, 64 KiB+1, thorough: 1 MiB} (and 6 MiB bodies under real hedging with the server holding back the first upload until the hedge has arrived, so that uploads overlap), request context kind x executor context kind, policy stack from {failsafehttp retry, never-firing timeout, 1 h hedge, real hedging against a slow server, breaker, fallback}, NewRoundTripper or NewRequest, server script per attempt (status, Retry-After, response size, flushed early / chunked with pauses / answered before the body was read / connection closed before or after the headers), or the caller cancelling while the server holds the response; a recording inner RoundTripper observes the context of every attempt. (gRPC) the client and server interceptors are invoked directly with a recording invoker / handler: status codes per attempt (server side: optionally the handler returns its reply object together with the error, and both pass through), call context with values, deadline, outgoing / incoming metadata, executor context, caller cancellation; plus TestGRPCLoopback: a real grpc.ClientConn and grpc.Server over an in-memory connection (bufconn) with the client and server interceptors installed, checking what arrives on the wire (metadata, deadline, request), attempt counts, replies and caller cancellation. Non-trivial = at least 2 attempts with a non-empty body, or a context-creating policy together with a non-background call context, or values / deadline / metadata present; distinct = the scenario",
     assumptions=["known finding D9 (seekable body x attempts whose body reads can overlap) is excluded by construction and counted as excluded_known; TestKnownFindingD9 reproduces it separately",
                  "a response sent before the request body was read is only generated with bodies of at most 4 KiB (already on the wire)",
                  "the executor context's values and deadline are not required to be visible to attempts, only its cancellation (the property speaks of the caller's context)"],
